@@ -5,10 +5,13 @@ package main
 import (
 	"fmt"
 	"go/ast"
+	"go/token"
+	"go/types"
+	"strings"
 )
 
 func handPatterns() []string {
-	return []string{"./runtime", "./support/timepb", "./anyutil", "./generator", "./cmd/protoc-gen-go-pulsar", "./rapidproto", "./features/fastreflection",
+	return []string{"./runtime", "./support/timepb", "./anyutil", "./any", "./generator", "./cmd/protoc-gen-go-pulsar", "./rapidproto", "./features/fastreflection",
 		"google.golang.org/protobuf/encoding/protowire"}
 }
 
@@ -39,10 +42,10 @@ func init() {
 		"bits.Len64(x) is modelled by its definition: the least n with x < 2^n",
 		"Skip on group records (wire types 3/4): only safety, progress and termination are proved; equality with the recursive record length is not stated (bounded stand-in not built)",
 	})
-	checks["C16"] = handCheck("C16", []string{
+	checks["C16"] = combine(handCheck("C16", []string{
 		"protobuf-go is not re-verified: proto.MarshalOptions.Marshal, the registries, dynamicpb and anypb.UnmarshalTo have trusted contracts (listed); Unpack(Pack(m)) == m and the agreement of the two resolver paths rest on them",
 		"a nil *anypb.Any is outside the input domain of Unpack (precondition)",
-	})
+	}), aliasCheck)
 	checks["C18"] = handCheck("C18", []string{
 		"rapid: a value drawn from XRange(lo, hi) lies in [lo, hi]; rapid.String() is valid UTF-8; a failed assert aborts the run (trusted)",
 		"'accepted by the reference marshaller / round-trips' is protobuf-go's behaviour on valid values; Any: typeURL is the resolver's own answer and value = Marshal(New()) by construction of genAny (not re-verified)",
@@ -163,3 +166,103 @@ func TestGovcReplay(t *testing.T) {
 	}
 }
 `
+
+// aliasCheck (C16): the deprecated package any (any/alias.go) is the anyutil API under another name. Each of New,
+// MarshalFrom and Unpack there is either a package-level variable initialised with the anyutil function of the same
+// name and never assigned afterwards, or a function whose body is `return anyutil.<same name>(<its parameters, in order>)`;
+// the anyutil contracts then carry over unchanged.
+func aliasCheck(rep *Report) error {
+	p, err := loadHand()
+	if err != nil {
+		return err
+	}
+	pk := p.byPath[repoModule+"/any"]
+	fail := func(name, detail string) {
+		rep.Grounds = append(rep.Grounds, Ground{Name: "any." + name + "/is-the-anyutil-function", OK: false,
+			Text: "package any's " + name + " is anyutil." + name + " (alias variable never reassigned, or a function that only forwards its parameters in order)", Detail: detail})
+	}
+	if pk == nil || pk.Types == nil {
+		fail("*", "package any is not loaded")
+		return nil
+	}
+	isTarget := func(e ast.Expr, name string) bool {
+		sel, ok := ast.Unparen(e).(*ast.SelectorExpr)
+		if !ok {
+			return false
+		}
+		fn, ok := pk.TypesInfo.Uses[sel.Sel].(*types.Func)
+		return ok && fn.Pkg() != nil && fn.Pkg().Path() == repoModule+"/anyutil" && fn.Name() == name && fn.Type().(*types.Signature).Recv() == nil
+	}
+	for _, name := range []string{"New", "MarshalFrom", "Unpack"} {
+		obj := pk.Types.Scope().Lookup(name)
+		switch o := obj.(type) {
+		case nil:
+			fail(name, "not declared")
+		case *types.Var:
+			okInit, assigned := false, ""
+			for _, f := range pk.Syntax {
+				ast.Inspect(f, func(n ast.Node) bool {
+					switch x := n.(type) {
+					case *ast.ValueSpec:
+						for i, id := range x.Names {
+							if pk.TypesInfo.Defs[id] == o && len(x.Values) == len(x.Names) && isTarget(x.Values[i], name) {
+								okInit = true
+							}
+						}
+					case *ast.AssignStmt:
+						for _, l := range x.Lhs {
+							if id, ok := ast.Unparen(l).(*ast.Ident); ok && pk.TypesInfo.Uses[id] == o {
+								assigned = pk.Fset.Position(x.Pos()).String()
+							}
+						}
+					case *ast.UnaryExpr:
+						if id, ok := ast.Unparen(x.X).(*ast.Ident); ok && x.Op == token.AND && pk.TypesInfo.Uses[id] == o {
+							assigned = "address taken at " + pk.Fset.Position(x.Pos()).String()
+						}
+					}
+					return true
+				})
+			}
+			if !okInit {
+				fail(name, "the variable is not initialised with anyutil."+name)
+			} else if assigned != "" {
+				fail(name, "the variable is assigned again: "+assigned)
+			} else {
+				rep.Grounds = append(rep.Grounds, Ground{Name: "any." + name + "/is-the-anyutil-function", OK: true, Text: "var " + name + " = anyutil." + name + ", never reassigned"})
+			}
+		case *types.Func:
+			fd := p.decls[o]
+			detail := ""
+			if fd == nil || fd.Body == nil || len(fd.Body.List) != 1 {
+				detail = "the body is not a single return statement"
+			} else if rs, ok := fd.Body.List[0].(*ast.ReturnStmt); !ok || len(rs.Results) != 1 {
+				detail = "the body is not a single return of one call"
+			} else if call, ok := rs.Results[0].(*ast.CallExpr); !ok || !isTarget(call.Fun, name) {
+				detail = "returns " + types.ExprString(rs.Results[0]) + ", not a call of anyutil." + name
+			} else {
+				var params []string
+				for _, fl := range fd.Type.Params.List {
+					for _, id := range fl.Names {
+						params = append(params, id.Name)
+					}
+				}
+				var args []string
+				for _, a := range call.Args {
+					args = append(args, types.ExprString(a))
+				}
+				if strings.Join(params, ",") != strings.Join(args, ",") {
+					detail = "forwards (" + strings.Join(args, ", ") + ") for parameters (" + strings.Join(params, ", ") + ")"
+				}
+			}
+			if detail != "" {
+				fail(name, detail)
+			} else {
+				rep.Grounds = append(rep.Grounds, Ground{Name: "any." + name + "/is-the-anyutil-function", OK: true, Text: "func " + name + " forwards its parameters to anyutil." + name})
+			}
+		default:
+			fail(name, fmt.Sprintf("declared as %T", obj))
+		}
+	}
+	rep.Programs = append(rep.Programs, "package any (any/alias.go): the three exported names")
+	return nil
+}
